@@ -276,7 +276,7 @@ class FluidPropertyInterExtra(FluidProperty):
                     t_upper_k, t_lower_k)
 
         """
-        mean = (self.prop_getter(upper_limit_arg) + self.prop_getter(upper_limit_arg)) / 2
+        mean = (self.prop_getter(upper_limit_arg) + self.prop_getter(lower_limit_arg)) / 2
         return mean * (upper_limit_arg-lower_limit_arg)
 
     @classmethod
